@@ -477,8 +477,8 @@ Section Dyn.
       tc = [] /\ Inv (id :: A) s' /\ Frame (Some id) s s' /\
       nview s' id = nview s id /\ eview s' id = wreplace_nth i (eshape e, ew (eshape e)) (eview s id) /\
       wv s' id = wv s id /\
-      (* the target is finished *)
-      In (e_to e) (ws_visited s') /\ ~ In (e_to e) (id :: A).
+      (* the target is finished, with a weight map that is not empty *)
+      In (e_to e) (ws_visited s') /\ ~ In (e_to e) (id :: A) /\ gs (e_to e) <> [].
 
   Lemma chain_notin A x : chain A x -> ~ In x A.
   Proof. intros H Hin. specialize (H x Hin). lia. Qed.
@@ -506,7 +506,8 @@ Section Dyn.
       rewrite is_tuple_cycle_absent in H; [discriminate|].
       apply Forall_forall. intros p Hin. unfold path_in in Hp'. rewrite Forall_forall in Hp'. specialize (Hp' p Hin).
       intros E. apply HnA. rewrite <- E. exact Hp'.
-    - rewrite <- Ew in Dw. clear Ew.
+    - assert (Hgs : gs (e_to e) <> []) by (rewrite <- Dw; discriminate).
+      rewrite <- Ew in Dw. clear Ew.
       assert (Hk : KP nonref (n_weights (nd s1 (e_to e)))) by (rewrite Dw; apply gs_nonref; assumption).
       rewrite (edge_from_target_nonref e (id, i) s1 Hk) in H. inversion H; subst tc s'. clear H.
       split; [reflexivity|].
@@ -523,7 +524,7 @@ Section Dyn.
       destruct (edge_weights_views s1 id i e1 W (fun e' => edge_with_weights e' W) He1) as (Vn & Ve & Vi); [reflexivity|].
       assert (Vw : forall x, wv (upd_edge s1 (id, i) (fun e' => edge_with_weights e' W)) x = wv s1 x).
       { intros x. apply wv_upd_edge_keep. reflexivity. }
-      split; [|split; [|split; [|split; [|split; [|split]]]]].
+      split; [|split; [|split; [|split; [|split; [|split; [|split]]]]]].
       + apply (Inv_inprogress_update (id :: A) s1 _ id); auto.
         * left; reflexivity.
         * apply upd_edge_visited.
@@ -540,6 +541,7 @@ Section Dyn.
       + rewrite Vw. exact Wid.
       + rewrite upd_edge_visited. exact Hvis.
       + exact HnA.
+      + exact Hgs.
   Qed.
 
   (* ---- the loop over the edges of a node ---- *)
@@ -612,6 +614,196 @@ Section Dyn.
   Proof.
     intros Hl Hx. revert i. induction Hl as [|y l Hy Hl IH]; intros [|i]; simpl; try constructor; auto.
   Qed.
+
+  Definition LoopInv (A : list str) (id : str) (i : nat) (s : wstate) : Prop :=
+    Inv (id :: A) s /\ n_weights (nd s id) = [] /\ progress id i s /\ wprogress id i s /\ (i <= length (es s id))%nat.
+
+  (* one edge: the invariant of the loop moves on by one; the target of the edge is terminal or finished with
+     a weight map that is not empty *)
+  Lemma edge_step_spec rec_edge A id path :
+    EdgeSpec rec_edge -> chain A id -> path_in (id :: A) path ->
+    is_terminal (n_type (node_of g0 id)) = false ->
+    forall i s e tc s',
+      LoopInv A id i s -> nth_error (es s id) i = Some e ->
+      edge_step (fun r s => rec_edge r path s) id i s = (tc, None, s') ->
+      tc = [] /\ LoopInv A id (S i) s' /\ length (es s' id) = length (es s id) /\ Frame (Some id) s s' /\
+      (is_terminal (n_type (node_of g0 (e_to e))) = true \/
+       (In (e_to e) (ws_visited s') /\ ~ In (e_to e) (id :: A) /\ gs (e_to e) <> [])).
+  Proof.
+    intros HE Hch Hp Hnt i s e0 tc s' (HI & Hw & Hpr & Hwp & Hle) He0 H.
+    assert (Hlt : (i < length (es s id))%nat) by (apply nth_error_Some; congruence).
+      unfold edge_step in H. unfold edge_at in H. cbn [fst snd] in H. fold (es s id) in H.
+      rewrite He0 in H. rename e0 into e. rename He0 into He.
+      assert (Hew : e_weights e = []).
+      { specialize (Hpr i (ev e)). unfold eview in Hpr. rewrite (map_nth_error ev _ _ He) in Hpr. specialize (Hpr eq_refl).
+        rewrite Nat.ltb_irrefl in Hpr. exact Hpr. }
+      assert (Hewild : e_wild e = []).
+      { destruct Hwp as [_ Hl]. specialize (Hl i (ewv e)). unfold wv in Hl. cbn [snd] in Hl.
+        rewrite (map_nth_error ewv _ _ He) in Hl. specialize (Hl eq_refl). rewrite Nat.ltb_irrefl in Hl. exact Hl. }
+      rewrite Hew in H.
+      destruct (inv_shape _ _ HI (e_to e)) as (_ & ShT & _ & _). fold (nd s (e_to e)) in H. rewrite ShT in H.
+      assert (Hid : In id (ws_visited s)) by (apply (inv_A _ _ HI); left; reflexivity).
+      destruct (inv_shape _ _ HI id) as (_ & Sh2 & _ & _).
+      assert (Hhas : has_node (ws_g s) id = true) by (apply nonterminal_has_node; fold (nd s id); rewrite Sh2; exact Hnt).
+      destruct (is_terminal (n_type (node_of g0 (e_to e)))) eqn:Tt.
+      + (* an edge to a type or a wildcard *)
+        set (tt := n_type (node_of g0 (e_to e))) in *.
+        set (label := if ntype_eqb tt NWildcard then drop_last2 (e_to e) else e_to e) in H.
+        set (e1 := if ntype_eqb tt NWildcard then add_wild_to_edge label e else e) in H.
+        set (s1 := if ntype_eqb tt NWildcard then upd_node s id (fun n => edge_wild_to_node n e1) else s) in H.
+        set (s2 := st_g s1 (set_edge (ws_g s1) (id, i) (edge_with_weights e1 [(label, 1)]))) in H.
+        assert (V1 : ws_visited s1 = ws_visited s /\ ws_deps s1 = ws_deps s /\
+                     (forall x, nview s1 x = nview s x /\ eview s1 x = eview s x) /\
+                     (forall x, x <> id -> wv s1 x = wv s x) /\ snd (wv s1 id) = snd (wv s id) /\
+                     (forall T, In T (fst (wv s1 id)) <-> In T (fst (wv s id)) \/ In T (e_wild e1)) /\
+                     NoDup (e_wild e1) /\ NoDup (fst (wv s1 id))).
+        { assert (ND0 := proj1 (inv_nodup _ _ HI id Hnt)).
+          assert (NDe : NoDup (e_wild e1)).
+          { unfold e1. destruct (ntype_eqb tt NWildcard); [|rewrite Hewild; constructor].
+            unfold add_wild_to_edge. cbn [e_wild edge_with_wild]. apply add_unique_NoDup. rewrite Hewild. constructor. }
+          unfold s1. destruct (ntype_eqb tt NWildcard) eqn:Wc.
+          - split; [reflexivity|]. split; [reflexivity|]. split; [apply nodefn_views; intros n; apply edge_wild_to_node_fn|].
+            split; [intros x Hx; apply wv_upd_node_other; [intros n; apply edge_wild_to_node_fn|exact Hx]|].
+            rewrite wv_upd_node_at by (try exact Hhas; intros n; apply edge_wild_to_node_fn). cbn [fst snd].
+            split; [reflexivity|]. split; [intros T; apply edge_wild_to_node_in|]. split; [exact NDe|].
+            apply edge_wild_to_node_nodup; [exact ND0|exact NDe].
+          - split; [reflexivity|]. split; [reflexivity|]. split; [auto|]. split; [auto|]. split; [reflexivity|].
+            split; [intros T; unfold e1; rewrite Hewild; simpl; tauto|]. split; [exact NDe|exact ND0]. }
+        destruct V1 as (Vv & Vd & Vw & Vwo & Vws & Vwn & NDe & NDn).
+        assert (He1 : nth_error (es s1 id) i = Some e).
+        { unfold s1. destruct (ntype_eqb tt NWildcard); [|exact He]. rewrite es_upd_node. exact He. }
+        assert (Esh : eshape e1 = eshape e) by (unfold e1; destruct (ntype_eqb tt NWildcard); reflexivity).
+        assert (HW : [(label, 1)] = ew (eshape e)).
+        { unfold ew, edge_w, eshape. fold tt. rewrite Tt. reflexivity. }
+        assert (HX : seteq (e_wild e1) (ews (eshape e))).
+        { unfold ews, edge_wild, eshape. fold tt. unfold e1, label. destruct tt eqn:Ett; try discriminate Tt; cbn [ntype_eqb].
+          - rewrite Hewild. apply seteq_refl.
+          - unfold add_wild_to_edge. cbn [e_wild edge_with_wild]. rewrite Hewild. apply seteq_refl. }
+        assert (Es2 : s2 = upd_edge s1 (id, i) (fun _ => edge_with_weights e1 [(label, 1)])).
+        { unfold s2, upd_edge, edge_at. cbn [fst snd]. fold (es s1 id). rewrite He1. reflexivity. }
+        destruct (edge_weights_views s1 id i e [(label, 1)] (fun _ => edge_with_weights e1 [(label, 1)]) He1) as (Un & Ue & Ui).
+        { unfold ev. cbn [e_weights edge_with_weights]. f_equal. exact Esh. }
+        assert (HI2 : Inv (id :: A) s2).
+        { rewrite Es2. apply (Inv_inprogress_update (id :: A) s _ id); auto.
+          - left; reflexivity.
+          - rewrite upd_edge_visited. exact Vv.
+          - rewrite upd_edge_deps. exact Vd.
+          - intros x. rewrite Un. apply Vw.
+          - intros x Hx. rewrite (Ue x Hx). apply Vw.
+          - rewrite Ui. destruct (Vw id) as [_ ->].
+            apply (map_wreplace fst (eview s id) i (eshape e, [(label, 1)]) (ev e)); [unfold eview; apply map_nth_error; exact He|reflexivity].
+          - intros x Hx. rewrite wv_upd_edge_other by exact Hx. apply Vwo. exact Hx.
+          - intros _. rewrite (wv_upd_edge_at s1 id i e _ He1). cbn [fst snd]. split; [exact NDn|].
+            apply Forall_wreplace; [rewrite Vws; apply (inv_nodup _ _ HI id Hnt)|exact NDe]. }
+        assert (Hpr2 : progress id (S i) s2).
+        { apply (progress_step id i s s2 e [(label, 1)]); auto.
+          rewrite Es2, Ui. destruct (Vw id) as [_ ->]. reflexivity. }
+        assert (Hwp2 : wprogress id (S i) s2).
+        { apply (wprogress_step id i s s2 e (e_wild e1)); [exact Hwp|exact He|exact HX| |].
+          - intros T. rewrite Es2. rewrite (wv_upd_edge_at s1 id i e _ He1). cbn [fst]. apply Vwn.
+          - rewrite Es2. rewrite (wv_upd_edge_at s1 id i e _ He1). cbn [snd]. rewrite Vws.
+            unfold ewv. cbn [e_wild edge_with_weights]. f_equal. f_equal. exact Esh. }
+        assert (Hw2 : n_weights (nd s2 id) = []).
+        { rewrite Es2. destruct (nview_parts _ _ _ (Un id)) as (_ & _ & _ & ->).
+          destruct (Vw id) as [Vn _]. destruct (nview_parts _ _ _ Vn) as (_ & _ & _ & ->). exact Hw. }
+        assert (Hlen2 : length (es s2 id) = length (es s id)).
+        { transitivity (length (eview s2 id)); [unfold eview; symmetry; apply map_length|].
+          rewrite Es2, Ui, length_wreplace. destruct (Vw id) as [_ ->]. unfold eview. apply map_length. }
+        inversion H; subst tc s'. clear H.
+        split; [reflexivity|]. split; [split; [exact HI2|split; [exact Hw2|split; [exact Hpr2|split; [exact Hwp2|rewrite Hlen2; lia]]]]|]. split; [exact Hlen2|].
+        split; [|left; reflexivity].
+        split.
+        * intros x Hx. rewrite Es2, upd_edge_visited, Vv. exact Hx.
+        * intros x Hx Hex. assert (Hxid : x <> id) by congruence. rewrite Es2.
+          rewrite (Un x), (Ue x Hxid), (wv_upd_edge_other s1 id i _ x Hxid). destruct (Vw x) as [-> ->]. rewrite (Vwo x Hxid). auto.
+      + (* an edge to a relation or an operator: calculateEdgeWeight, then the wildcard bookkeeping *)
+        destruct (rec_edge (id, i) path s) as [[tc1 err1] s1] eqn:E1.
+        set (wf := fun e0 : wedge => match e_wild e0, n_wild (node_of (ws_g s1) (e_to e0)) with
+                                     | [], (_ :: _) as nw => edge_with_wild e0 nw
+                                     | _, _ => e0
+                                     end) in H.
+        set (s2 := upd_edge s1 (id, i) wf) in H.
+        set (s3 := match edge_at (ws_g s2) (id, i) with Some e' => upd_node s2 id (fun n => edge_wild_to_node n e') | None => s2 end) in H.
+        assert (Herr : err1 = None) by (inversion H; reflexivity). subst err1.
+        destruct (HE A id i path s e tc1 s1 HI Hch Hp He Tt E1) as (-> & HI1 & HF1 & Nid & Eid & Wid & Tvis & TnA & Tgs).
+        (* edge i in s1: same shape, no wildcards yet *)
+        assert (He1 : exists e1, nth_error (es s1 id) i = Some e1 /\ ewv e1 = ewv e).
+        { apply nth_error_map_inv. change (map ewv (es s1 id)) with (snd (wv s1 id)). rewrite Wid. unfold wv. cbn [snd].
+          apply map_nth_error. exact He. }
+        destruct He1 as [e1 [He1 Ew1]].
+        assert (Esh1 : eshape e1 = eshape e) by (unfold ewv in Ew1; congruence).
+        assert (Ewild1 : e_wild e1 = []) by (unfold ewv in Ew1; congruence).
+        assert (Eto1 : e_to e1 = e_to e) by (unfold eshape in Esh1; congruence).
+        destruct (inv_done _ _ HI1 (e_to e) Tvis TnA) as [_ [WDt _]].
+        set (X := n_wild (nd s1 (e_to e))).
+        assert (Hwf : ewv (wf e1) = (eshape e, X)).
+        { unfold wf, ewv. rewrite Ewild1, Eto1. fold (nd s1 (e_to e)). fold X.
+          destruct X as [|x0 X0] eqn:EX; cbn [e_wild edge_with_wild eshape e_from e_to e_type]; rewrite <- ?Esh1; try rewrite Ewild1; reflexivity. }
+        assert (HX : seteq X (ews (eshape e))).
+        { unfold ews, edge_wild, eshape. unfold X.
+          destruct (n_type (node_of g0 (e_to e))) eqn:Ett; try discriminate Tt; exact WDt. }
+        assert (V2 : forall x, nview s2 x = nview s1 x /\ eview s2 x = eview s1 x).
+        { apply edgefn_views. intros e'. unfold wf. destruct (e_wild e'); [|reflexivity].
+          destruct (n_wild (node_of (ws_g s1) (e_to e'))); reflexivity. }
+        assert (W2 : wv s2 id = (fst (wv s1 id), wreplace_nth i (eshape e, X) (snd (wv s1 id)))).
+        { unfold s2. rewrite (wv_upd_edge_at s1 id i e1 wf He1). rewrite Hwf. reflexivity. }
+        assert (He2 : exists e2, edge_at (ws_g s2) (id, i) = Some e2 /\ e_wild e2 = X).
+        { unfold edge_at. cbn [fst snd]. fold (es s2 id).
+          assert (Hn : nth_error (snd (wv s2 id)) i = Some (eshape e, X)).
+          { rewrite W2. cbn [snd]. rewrite nth_error_wreplace, Nat.eqb_refl.
+            unfold wv. cbn [snd]. rewrite (map_nth_error ewv _ _ He1). reflexivity. }
+          unfold wv in Hn. cbn [snd] in Hn. apply nth_error_map_inv in Hn. destruct Hn as [e2 [Hn2 E2]].
+          exists e2. split; [exact Hn2|]. unfold ewv in E2. congruence. }
+        destruct He2 as [e2 [He2 Ew2]].
+        assert (Es3 : s3 = upd_node s2 id (fun n => edge_wild_to_node n e2)) by (unfold s3; rewrite He2; reflexivity).
+        assert (Hhas2 : has_node (ws_g s2) id = true).
+        { destruct (nview_parts _ _ _ (proj1 (V2 id))) as (-> & _). destruct (nview_parts _ _ _ Nid) as (-> & _). exact Hhas. }
+        assert (V3 : forall x, nview s3 x = nview s2 x /\ eview s3 x = eview s2 x).
+        { rewrite Es3. apply nodefn_views. intros n. apply edge_wild_to_node_fn. }
+        assert (V13 : forall x, nview s3 x = nview s1 x /\ eview s3 x = eview s1 x).
+        { intros x. destruct (V3 x) as [-> ->]. apply V2. }
+        assert (Vv : ws_visited s3 = ws_visited s1) by (rewrite Es3; cbn [upd_node st_g ws_visited]; apply upd_edge_visited).
+        assert (Vd : ws_deps s3 = ws_deps s1) by (rewrite Es3; cbn [upd_node st_g ws_deps]; apply upd_edge_deps).
+        assert (Wo : forall x, x <> id -> wv s3 x = wv s1 x).
+        { intros x Hx. rewrite Es3. rewrite wv_upd_node_other by (try exact Hx; intros n; apply edge_wild_to_node_fn).
+          apply wv_upd_edge_other. exact Hx. }
+        assert (W3 : wv s3 id = (n_wild (edge_wild_to_node (nd s2 id) e2), wreplace_nth i (eshape e, X) (snd (wv s1 id)))).
+        { rewrite Es3. rewrite wv_upd_node_at by (try exact Hhas2; intros n; apply edge_wild_to_node_fn). rewrite W2. reflexivity. }
+        assert (HI3 : Inv (id :: A) s3).
+        { apply (Inv_inprogress_update (id :: A) s1 s3 id); auto.
+          - left; reflexivity.
+          - intros x. apply V13.
+          - intros x _. apply V13.
+          - destruct (V13 id) as [_ ->]. reflexivity.
+          - intros _. rewrite W3. cbn [fst snd].
+            assert (NDX : NoDup X) by (apply (inv_nodup _ _ HI1 (e_to e) Tt)).
+            split.
+            + apply edge_wild_to_node_nodup; [|rewrite Ew2; exact NDX].
+              change (n_wild (nd s2 id)) with (fst (wv s2 id)). rewrite W2. cbn [fst]. rewrite Wid. apply (inv_nodup _ _ HI id Hnt).
+            + apply Forall_wreplace; [rewrite Wid; apply (inv_nodup _ _ HI id Hnt)|exact NDX]. }
+        assert (Hpr3 : progress id (S i) s3).
+        { apply (progress_step id i s s3 e (ew (eshape e))); auto. destruct (V13 id) as [_ ->]. exact Eid. }
+        assert (Hwp3 : wprogress id (S i) s3).
+        { apply (wprogress_step id i s s3 e X); [exact Hwp|exact He|exact HX| |].
+          - intros T. rewrite W3. cbn [fst]. rewrite edge_wild_to_node_in, Ew2.
+            change (n_wild (nd s2 id)) with (fst (wv s2 id)). rewrite W2. cbn [fst]. rewrite Wid. tauto.
+          - rewrite W3. cbn [snd]. rewrite Wid. reflexivity. }
+        assert (Hw3 : n_weights (nd s3 id) = []).
+        { destruct (V13 id) as [Vn _]. destruct (nview_parts _ _ _ Vn) as (_ & _ & _ & ->).
+          destruct (nview_parts _ _ _ Nid) as (_ & _ & _ & ->). exact Hw. }
+        assert (Hlen3 : length (es s3 id) = length (es s id)).
+        { transitivity (length (eview s3 id)); [unfold eview; symmetry; apply map_length|].
+          destruct (V13 id) as [_ ->]. rewrite Eid, length_wreplace. unfold eview. apply map_length. }
+        assert (Hs' : s' = s3) by (inversion H; reflexivity). assert (Htc : tc = []) by (inversion H; reflexivity).
+        clear H. clearbody s3. subst tc s'.
+        split; [reflexivity|]. split; [split; [exact HI3|split; [exact Hw3|split; [exact Hpr3|split; [exact Hwp3|rewrite Hlen3; lia]]]]|]. split; [exact Hlen3|].
+        split; [|right; split; [rewrite Vv; exact Tvis|split; [exact TnA|exact Tgs]]].
+        destruct HF1 as [VF1 FF1]. split.
+        * intros x Hx. rewrite Vv. auto.
+        * intros x Hx Hex. assert (Hxid : x <> id) by congruence. destruct (FF1 x Hx Hex) as (N1 & E1' & W1).
+          destruct (V13 x) as [-> ->]. rewrite (Wo x Hxid). auto.
+  Qed.
+
 
   Lemma edge_loop_spec rec_edge A id path :
     EdgeSpec rec_edge -> chain A id -> path_in (id :: A) path ->
@@ -702,177 +894,16 @@ Section Dyn.
           -- apply Dn; [exact Hx|]. intros [E|E]; [congruence|contradiction].
         * intros a Ha. apply IA. right. exact Ha.
     - (* one more edge *)
-      cbn [edge_loop] in H. unfold edge_at in H. cbn [fst snd] in H. fold (es s id) in H.
-      destruct (nth_error (es s id) i) as [e|] eqn:He.
-      2:{ apply nth_error_None in He. lia. }
-      assert (Hew : e_weights e = []).
-      { specialize (Hpr i (ev e)). unfold eview in Hpr. rewrite (map_nth_error ev _ _ He) in Hpr. specialize (Hpr eq_refl).
-        rewrite Nat.ltb_irrefl in Hpr. exact Hpr. }
-      assert (Hewild : e_wild e = []).
-      { destruct Hwp as [_ Hl]. specialize (Hl i (ewv e)). unfold wv in Hl. cbn [snd] in Hl.
-        rewrite (map_nth_error ewv _ _ He) in Hl. specialize (Hl eq_refl). rewrite Nat.ltb_irrefl in Hl. exact Hl. }
-      rewrite Hew in H.
-      destruct (inv_shape _ _ HI (e_to e)) as (_ & ShT & _ & _). fold (nd s (e_to e)) in H. rewrite ShT in H.
-      assert (Hid : In id (ws_visited s)) by (apply (inv_A _ _ HI); left; reflexivity).
-      destruct (inv_shape _ _ HI id) as (_ & Sh2 & _ & _).
-      assert (Hhas : has_node (ws_g s) id = true) by (apply nonterminal_has_node; fold (nd s id); rewrite Sh2; exact Hnt).
-      destruct (is_terminal (n_type (node_of g0 (e_to e)))) eqn:Tt.
-      + (* an edge to a type or a wildcard *)
-        set (tt := n_type (node_of g0 (e_to e))) in *.
-        set (label := if ntype_eqb tt NWildcard then drop_last2 (e_to e) else e_to e) in H.
-        set (e1 := if ntype_eqb tt NWildcard then add_wild_to_edge label e else e) in H.
-        set (s1 := if ntype_eqb tt NWildcard then upd_node s id (fun n => edge_wild_to_node n e1) else s) in H.
-        set (s2 := st_g s1 (set_edge (ws_g s1) (id, i) (edge_with_weights e1 [(label, 1)]))) in H.
-        assert (V1 : ws_visited s1 = ws_visited s /\ ws_deps s1 = ws_deps s /\
-                     (forall x, nview s1 x = nview s x /\ eview s1 x = eview s x) /\
-                     (forall x, x <> id -> wv s1 x = wv s x) /\ snd (wv s1 id) = snd (wv s id) /\
-                     (forall T, In T (fst (wv s1 id)) <-> In T (fst (wv s id)) \/ In T (e_wild e1)) /\
-                     NoDup (e_wild e1) /\ NoDup (fst (wv s1 id))).
-        { assert (ND0 := proj1 (inv_nodup _ _ HI id Hnt)).
-          assert (NDe : NoDup (e_wild e1)).
-          { unfold e1. destruct (ntype_eqb tt NWildcard); [|rewrite Hewild; constructor].
-            unfold add_wild_to_edge. cbn [e_wild edge_with_wild]. apply add_unique_NoDup. rewrite Hewild. constructor. }
-          unfold s1. destruct (ntype_eqb tt NWildcard) eqn:Wc.
-          - split; [reflexivity|]. split; [reflexivity|]. split; [apply nodefn_views; intros n; apply edge_wild_to_node_fn|].
-            split; [intros x Hx; apply wv_upd_node_other; [intros n; apply edge_wild_to_node_fn|exact Hx]|].
-            rewrite wv_upd_node_at by (try exact Hhas; intros n; apply edge_wild_to_node_fn). cbn [fst snd].
-            split; [reflexivity|]. split; [intros T; apply edge_wild_to_node_in|]. split; [exact NDe|].
-            apply edge_wild_to_node_nodup; [exact ND0|exact NDe].
-          - split; [reflexivity|]. split; [reflexivity|]. split; [auto|]. split; [auto|]. split; [reflexivity|].
-            split; [intros T; unfold e1; rewrite Hewild; simpl; tauto|]. split; [exact NDe|exact ND0]. }
-        destruct V1 as (Vv & Vd & Vw & Vwo & Vws & Vwn & NDe & NDn).
-        assert (He1 : nth_error (es s1 id) i = Some e).
-        { unfold s1. destruct (ntype_eqb tt NWildcard); [|exact He]. rewrite es_upd_node. exact He. }
-        assert (Esh : eshape e1 = eshape e) by (unfold e1; destruct (ntype_eqb tt NWildcard); reflexivity).
-        assert (HW : [(label, 1)] = ew (eshape e)).
-        { unfold ew, edge_w, eshape. fold tt. rewrite Tt. reflexivity. }
-        assert (HX : seteq (e_wild e1) (ews (eshape e))).
-        { unfold ews, edge_wild, eshape. fold tt. unfold e1, label. destruct tt eqn:Ett; try discriminate Tt; cbn [ntype_eqb].
-          - rewrite Hewild. apply seteq_refl.
-          - unfold add_wild_to_edge. cbn [e_wild edge_with_wild]. rewrite Hewild. apply seteq_refl. }
-        assert (Es2 : s2 = upd_edge s1 (id, i) (fun _ => edge_with_weights e1 [(label, 1)])).
-        { unfold s2, upd_edge, edge_at. cbn [fst snd]. fold (es s1 id). rewrite He1. reflexivity. }
-        destruct (edge_weights_views s1 id i e [(label, 1)] (fun _ => edge_with_weights e1 [(label, 1)]) He1) as (Un & Ue & Ui).
-        { unfold ev. cbn [e_weights edge_with_weights]. f_equal. exact Esh. }
-        assert (HI2 : Inv (id :: A) s2).
-        { rewrite Es2. apply (Inv_inprogress_update (id :: A) s _ id); auto.
-          - left; reflexivity.
-          - rewrite upd_edge_visited. exact Vv.
-          - rewrite upd_edge_deps. exact Vd.
-          - intros x. rewrite Un. apply Vw.
-          - intros x Hx. rewrite (Ue x Hx). apply Vw.
-          - rewrite Ui. destruct (Vw id) as [_ ->].
-            apply (map_wreplace fst (eview s id) i (eshape e, [(label, 1)]) (ev e)); [unfold eview; apply map_nth_error; exact He|reflexivity].
-          - intros x Hx. rewrite wv_upd_edge_other by exact Hx. apply Vwo. exact Hx.
-          - intros _. rewrite (wv_upd_edge_at s1 id i e _ He1). cbn [fst snd]. split; [exact NDn|].
-            apply Forall_wreplace; [rewrite Vws; apply (inv_nodup _ _ HI id Hnt)|exact NDe]. }
-        assert (Hpr2 : progress id (S i) s2).
-        { apply (progress_step id i s s2 e [(label, 1)]); auto.
-          rewrite Es2, Ui. destruct (Vw id) as [_ ->]. reflexivity. }
-        assert (Hwp2 : wprogress id (S i) s2).
-        { apply (wprogress_step id i s s2 e (e_wild e1)); [exact Hwp|exact He|exact HX| |].
-          - intros T. rewrite Es2. rewrite (wv_upd_edge_at s1 id i e _ He1). cbn [fst]. apply Vwn.
-          - rewrite Es2. rewrite (wv_upd_edge_at s1 id i e _ He1). cbn [snd]. rewrite Vws.
-            unfold ewv. cbn [e_wild edge_with_weights]. f_equal. f_equal. exact Esh. }
-        assert (Hw2 : n_weights (nd s2 id) = []).
-        { rewrite Es2. destruct (nview_parts _ _ _ (Un id)) as (_ & _ & _ & ->).
-          destruct (Vw id) as [Vn _]. destruct (nview_parts _ _ _ Vn) as (_ & _ & _ & ->). exact Hw. }
-        assert (Hlen2 : (k + S i = length (es s2 id))%nat).
-        { transitivity (length (eview s2 id)); [|unfold eview; apply map_length].
-          rewrite Es2, Ui, length_wreplace. destruct (Vw id) as [_ ->]. unfold eview. rewrite map_length. lia. }
-        destruct (IH (S i) s2 tc s' HI2 Hw2 Hpr2 Hwp2 Hlen2 H) as (-> & HI' & HF').
-        split; [reflexivity|]. split; [exact HI'|].
-        apply (Frame_trans _ s s2 s'); [|exact HF'].
-        split.
-        * intros x Hx. rewrite Es2, upd_edge_visited, Vv. exact Hx.
-        * intros x Hx Hex. assert (x <> id) by congruence. rewrite Es2.
-          rewrite (Un x), (Ue x H0), (wv_upd_edge_other s1 id i _ x H0). destruct (Vw x) as [-> ->]. rewrite (Vwo x H0). auto.
-      + (* an edge to a relation or an operator: calculateEdgeWeight, then the wildcard bookkeeping *)
-        destruct (rec_edge (id, i) path s) as [[tc1 err1] s1] eqn:E1.
-        set (wf := fun e0 : wedge => match e_wild e0, n_wild (node_of (ws_g s1) (e_to e0)) with
-                                     | [], (_ :: _) as nw => edge_with_wild e0 nw
-                                     | _, _ => e0
-                                     end) in H.
-        set (s2 := upd_edge s1 (id, i) wf) in H.
-        set (s3 := match edge_at (ws_g s2) (id, i) with Some e' => upd_node s2 id (fun n => edge_wild_to_node n e') | None => s2 end) in H.
-        destruct err1 as [x|]; [discriminate|].
-        destruct (HE A id i path s e tc1 s1 HI Hch Hp He Tt E1) as (-> & HI1 & HF1 & Nid & Eid & Wid & Tvis & TnA).
-        (* edge i in s1: same shape, no wildcards yet *)
-        assert (He1 : exists e1, nth_error (es s1 id) i = Some e1 /\ ewv e1 = ewv e).
-        { apply nth_error_map_inv. change (map ewv (es s1 id)) with (snd (wv s1 id)). rewrite Wid. unfold wv. cbn [snd].
-          apply map_nth_error. exact He. }
-        destruct He1 as [e1 [He1 Ew1]].
-        assert (Esh1 : eshape e1 = eshape e) by (unfold ewv in Ew1; congruence).
-        assert (Ewild1 : e_wild e1 = []) by (unfold ewv in Ew1; congruence).
-        assert (Eto1 : e_to e1 = e_to e) by (unfold eshape in Esh1; congruence).
-        destruct (inv_done _ _ HI1 (e_to e) Tvis TnA) as [_ [WDt _]].
-        set (X := n_wild (nd s1 (e_to e))).
-        assert (Hwf : ewv (wf e1) = (eshape e, X)).
-        { unfold wf, ewv. rewrite Ewild1, Eto1. fold (nd s1 (e_to e)). fold X.
-          destruct X as [|x0 X0] eqn:EX; cbn [e_wild edge_with_wild eshape e_from e_to e_type]; rewrite <- ?Esh1; try rewrite Ewild1; reflexivity. }
-        assert (HX : seteq X (ews (eshape e))).
-        { unfold ews, edge_wild, eshape. unfold X.
-          destruct (n_type (node_of g0 (e_to e))) eqn:Ett; try discriminate Tt; exact WDt. }
-        assert (V2 : forall x, nview s2 x = nview s1 x /\ eview s2 x = eview s1 x).
-        { apply edgefn_views. intros e'. unfold wf. destruct (e_wild e'); [|reflexivity].
-          destruct (n_wild (node_of (ws_g s1) (e_to e'))); reflexivity. }
-        assert (W2 : wv s2 id = (fst (wv s1 id), wreplace_nth i (eshape e, X) (snd (wv s1 id)))).
-        { unfold s2. rewrite (wv_upd_edge_at s1 id i e1 wf He1). rewrite Hwf. reflexivity. }
-        assert (He2 : exists e2, edge_at (ws_g s2) (id, i) = Some e2 /\ e_wild e2 = X).
-        { unfold edge_at. cbn [fst snd]. fold (es s2 id).
-          assert (Hn : nth_error (snd (wv s2 id)) i = Some (eshape e, X)).
-          { rewrite W2. cbn [snd]. rewrite nth_error_wreplace, Nat.eqb_refl.
-            unfold wv. cbn [snd]. rewrite (map_nth_error ewv _ _ He1). reflexivity. }
-          unfold wv in Hn. cbn [snd] in Hn. apply nth_error_map_inv in Hn. destruct Hn as [e2 [Hn2 E2]].
-          exists e2. split; [exact Hn2|]. unfold ewv in E2. congruence. }
-        destruct He2 as [e2 [He2 Ew2]].
-        assert (Es3 : s3 = upd_node s2 id (fun n => edge_wild_to_node n e2)) by (unfold s3; rewrite He2; reflexivity).
-        assert (Hhas2 : has_node (ws_g s2) id = true).
-        { destruct (nview_parts _ _ _ (proj1 (V2 id))) as (-> & _). destruct (nview_parts _ _ _ Nid) as (-> & _). exact Hhas. }
-        assert (V3 : forall x, nview s3 x = nview s2 x /\ eview s3 x = eview s2 x).
-        { rewrite Es3. apply nodefn_views. intros n. apply edge_wild_to_node_fn. }
-        assert (V13 : forall x, nview s3 x = nview s1 x /\ eview s3 x = eview s1 x).
-        { intros x. destruct (V3 x) as [-> ->]. apply V2. }
-        assert (Vv : ws_visited s3 = ws_visited s1) by (rewrite Es3; cbn [upd_node st_g ws_visited]; apply upd_edge_visited).
-        assert (Vd : ws_deps s3 = ws_deps s1) by (rewrite Es3; cbn [upd_node st_g ws_deps]; apply upd_edge_deps).
-        assert (Wo : forall x, x <> id -> wv s3 x = wv s1 x).
-        { intros x Hx. rewrite Es3. rewrite wv_upd_node_other by (try exact Hx; intros n; apply edge_wild_to_node_fn).
-          apply wv_upd_edge_other. exact Hx. }
-        assert (W3 : wv s3 id = (n_wild (edge_wild_to_node (nd s2 id) e2), wreplace_nth i (eshape e, X) (snd (wv s1 id)))).
-        { rewrite Es3. rewrite wv_upd_node_at by (try exact Hhas2; intros n; apply edge_wild_to_node_fn). rewrite W2. reflexivity. }
-        assert (HI3 : Inv (id :: A) s3).
-        { apply (Inv_inprogress_update (id :: A) s1 s3 id); auto.
-          - left; reflexivity.
-          - intros x. apply V13.
-          - intros x _. apply V13.
-          - destruct (V13 id) as [_ ->]. reflexivity.
-          - intros _. rewrite W3. cbn [fst snd].
-            assert (NDX : NoDup X) by (apply (inv_nodup _ _ HI1 (e_to e) Tt)).
-            split.
-            + apply edge_wild_to_node_nodup; [|rewrite Ew2; exact NDX].
-              change (n_wild (nd s2 id)) with (fst (wv s2 id)). rewrite W2. cbn [fst]. rewrite Wid. apply (inv_nodup _ _ HI id Hnt).
-            + apply Forall_wreplace; [rewrite Wid; apply (inv_nodup _ _ HI id Hnt)|exact NDX]. }
-        assert (Hpr3 : progress id (S i) s3).
-        { apply (progress_step id i s s3 e (ew (eshape e))); auto. destruct (V13 id) as [_ ->]. exact Eid. }
-        assert (Hwp3 : wprogress id (S i) s3).
-        { apply (wprogress_step id i s s3 e X); [exact Hwp|exact He|exact HX| |].
-          - intros T. rewrite W3. cbn [fst]. rewrite edge_wild_to_node_in, Ew2.
-            change (n_wild (nd s2 id)) with (fst (wv s2 id)). rewrite W2. cbn [fst]. rewrite Wid. tauto.
-          - rewrite W3. cbn [snd]. rewrite Wid. reflexivity. }
-        assert (Hw3 : n_weights (nd s3 id) = []).
-        { destruct (V13 id) as [Vn _]. destruct (nview_parts _ _ _ Vn) as (_ & _ & _ & ->).
-          destruct (nview_parts _ _ _ Nid) as (_ & _ & _ & ->). exact Hw. }
-        assert (Hlen3 : (k + S i = length (es s3 id))%nat).
-        { transitivity (length (eview s3 id)); [|unfold eview; apply map_length].
-          destruct (V13 id) as [_ ->]. rewrite Eid, length_wreplace. unfold eview. rewrite map_length. lia. }
-        cbn [app] in H.
-        destruct (IH (S i) s3 tc s' HI3 Hw3 Hpr3 Hwp3 Hlen3 H) as (-> & HI' & HF').
-        split; [reflexivity|]. split; [exact HI'|].
-        apply (Frame_trans _ s s3 s'); [|exact HF'].
-        destruct HF1 as [VF1 FF1]. split.
-        * intros x Hx. rewrite Vv. auto.
-        * intros x Hx Hex. assert (x <> id) by congruence. destruct (FF1 x Hx Hex) as (N1 & E1' & W1).
-          destruct (V13 x) as [-> ->]. rewrite (Wo x H0). auto.
+      cbn [edge_loop] in H.
+      destruct (edge_step (fun r s0 => rec_edge r path s0) id i s) as [[tc1 err1] s1] eqn:Es.
+      destruct err1 as [x|]; [discriminate|].
+      assert (Hlt : (i < length (es s id))%nat) by lia.
+      destruct (nth_error (es s id) i) as [e|] eqn:He; [|apply nth_error_None in He; lia].
+      destruct (edge_step_spec rec_edge A id path HE Hch Hp Hnt i s e tc1 s1) as (-> & (HI1 & Hw1 & Hpr1 & Hwp1 & _) & Hlen1 & HF1 & _); auto.
+      { split; [exact HI|]. split; [exact Hw|]. split; [exact Hpr|]. split; [exact Hwp|lia]. }
+      cbn [app] in H.
+      destruct (IH (S i) s1 tc s' HI1 Hw1 Hpr1 Hwp1) as (-> & HI' & HF'); [lia|exact H|].
+      split; [reflexivity|]. split; [exact HI'|]. apply (Frame_trans _ s s1 s'); assumption.
   Qed.
 
   (* ---- calculateNodeWeight ---- *)
